@@ -196,6 +196,10 @@ func OriginAtoms() []OriginAtom {
 		OriginAtom{Value: "http://*.s3.amazonaws.com:*", PSL: true, Insecure: true},
 		OriginAtom{Value: "https://*.fastly.net"},
 		OriginAtom{Value: "https://*.global.ssl.fastly.net", PSL: true},
+		// discrete hosts that are themselves public suffixes are ordinary valid patterns
+		OriginAtom{Value: "https://github.io"},
+		OriginAtom{Value: "https://co.uk:8443"},
+		OriginAtom{Value: "https://s3.amazonaws.com"},
 		// A-labels that are not valid IDNA (they violate the Bidi rule once decoded): no valid host
 		OriginAtom{Value: "https://xn--a-zhc.com", Malformed: true},
 		OriginAtom{Value: "https://1a.xn--4dbcd.com", Malformed: true},
@@ -313,6 +317,10 @@ func RequestHeaderTable() []NameAtom {
 		for _, s := range spellings(n) {
 			out = append(out, NameAtom{Value: s, Reason: "prohibited"})
 		}
+	}
+	// names that matter on the response side, as request-header names (all plain valid there, except the prohibited ones)
+	for _, n := range []string{"set-cookie2", "Set-Cookie2", "cache-control", "content-language", "expires", "last-modified", "pragma", "etag", "link", "location", "vary", "www-authenticate", "x-request-id"} {
+		out = append(out, NameAtom{Value: n})
 	}
 	for _, n := range []string{"proxy", "prox-y", "xproxy-a", "sec", "secx-a", "xsec-a", "cookie3", "cooki", "dn", "dnt2", "hosts", "hos", "vias", "vi", "t", "tee", "dates", "expects", "origins", "referrer", "trailers", "upgrades", "accept", "accept-language", "content-language",
 		"access-control-allow", "access-control-allow-origins", "access-control-request", "x-access-control-allow-origin", "if-match", "range", "x-http-method-override-2"} {
